@@ -55,7 +55,8 @@ def units_model(ctx, large=False):
     if large:
         k.update(Cs="<-CsLarge", Vals="{1, 2, 3, 5}")
     cfg = ctx.write_cfg("rel_units.cfg", init="InitUnits", next_="NextUnits", constants=k,
-                        invariants=["RecipeComplete", "GroupsDimensionless", "GroupsKeepValue", "OutputExponents"])
+                        invariants=["RecipeComplete", "GroupsDimensionless", "GroupsKeepValue", "OutputExponents",
+                                    "ConstrainScales", "MomentsScale"])
     r = ctx.tlc("Relational", cfg, workers=2, required_actions=("PickUnits", "EmitUnits"))
     out = {}
     for u in r.rec("units"):
@@ -565,8 +566,8 @@ def variants(method, inp, quick, rng):
                        "probability_space": "logarithmic"},
                       {"min_branch_length": 1e-8, "eps": 1e-8, "population_size": Ne, "ignore_oldest_root": True}]
     if quick:
-        keep = [v[0]] + [v[int(rng.integers(1, len(v)))]]
-        return keep
+        pick = rng.choice(np.arange(1, len(v)), size=min(2, len(v) - 1), replace=False)
+        return [v[0]] + [v[int(i)] for i in sorted(pick)]
     return v
 
 
@@ -764,7 +765,18 @@ def _child_main(argv):
         raise SystemExit(f"child imported tsdate from {tsdate.__file__}, not from {harness.REPO}")
     with open(jobfile) as f:
         jobs = json.load(f)
-    res = {"hashseed": os.environ.get("PYTHONHASHSEED"), "hash_of_a": hash("a"), "results": run_jobs(jobs)}
+    # a different call order in every child: a result must not depend on what the process did before
+    hs = int(os.environ.get("PYTHONHASHSEED", "0") or 0)
+    order = list(range(len(jobs)))
+    rot = hs % max(1, len(jobs))
+    order = order[rot:] + order[:rot]
+    if hs % 2 == 0:
+        order.reverse()
+    got = run_jobs([jobs[i] for i in order])
+    results = [None] * len(jobs)
+    for i, r in zip(order, got):
+        results[i] = r
+    res = {"hashseed": os.environ.get("PYTHONHASHSEED"), "hash_of_a": hash("a"), "results": results, "order": order}
     with open(out + ".tmp", "w") as f:
         json.dump(res, f)
     os.replace(out + ".tmp", out)
